@@ -162,18 +162,16 @@ class Ctx:
         rc, out = sh(["lake", "env", "lean", f], cwd=LEAN)
         self.checker_cmds.append(f"cd lean && lake env lean .audit/{os.path.basename(f)}")
         counted = set()
-        for line in out.splitlines():
-            mm = re.match(r".*AUDIT-THEOREM (\S+) AXIOMS \[(.*)\]", line)
-            if mm:
-                axs = [a.strip() for a in mm.group(2).split(",") if a.strip()]
-                self.theorems[mm.group(1)] = axs
-                bad = [a for a in axs if a not in ALLOWED_AXIOMS]
-                if bad:
-                    ok = False
-                    self.proof_problems.append({"kind": "axioms", "theorem": mm.group(1), "axioms": bad})
-            mm = re.match(r".*AUDIT-COUNT (\S+) (\d+)", line)
-            if mm:
-                counted.add(mm.group(1))
+        # Lean wraps messages longer than its line width: match across line breaks
+        for mm in re.finditer(r"AUDIT-THEOREM\s+(\S+)\s+AXIOMS\s+\[(.*?)\]", out, re.S):
+            axs = [a.strip() for a in mm.group(2).split(",") if a.strip()]
+            self.theorems[mm.group(1)] = axs
+            bad = [a for a in axs if a not in ALLOWED_AXIOMS]
+            if bad:
+                ok = False
+                self.proof_problems.append({"kind": "axioms", "theorem": mm.group(1), "axioms": bad})
+        for mm in re.finditer(r"AUDIT-COUNT\s+(\S+)\s+(\d+)", out):
+            counted.add(mm.group(1))
         missing = [m for m in modules if m not in counted]
         if rc != 0 or missing:
             ok = False
